@@ -3,12 +3,16 @@
 
    resolve_ix   = UrlDispatcher.resolve as written (matched sub-apps first, then the walk over
                   url_part from longest to shortest through _resource_index; sub-applications resolved
-                  recursively through their own, re-indexed, tables);
+                  recursively through their own, re-indexed, tables; a sub-application's own 404/405
+                  keeps the allowed methods collected before it, _merge_allowed);
    resolve_rule = the documented rule (resources ordered by decreasing length of their fixed prefix,
                   registration order among equals, each asked with its declarative path test, the method
                   must match, allowed methods accumulated in that order);
    build_app    = add_route / add_static / add_subapp (with _add_prefix_to_resources) / add_domain / freeze.
-   `p` is request.rel_url.path_safe.  Origin-form request targets start with '/'. *)
+   `p` is request.rel_url.path_safe: it starts with '/' (origin-form) and yarl's path_safe decoder
+   leaves it unchanged (path_safe_dec p = p; sampled law, harness suite quoting_laws).
+   op_clean: the prefix given to add_subapp contains no '%' and no '{' (it reaches the sub-application's
+   resources as typed, so only then is it the same text in the formatter and in the decoded path). *)
 From AV Require Import Lib.Base Lib.Utf8 Generated.DispatchGen Model.Dispatch
   Proofs.DispatchStrings Proofs.DispatchRule Proofs.DispatchIndex Proofs.DispatchStatus
   Proofs.DispatchTemplate Proofs.DispatchRedirect Proofs.DispatchMain.
@@ -16,33 +20,47 @@ Open Scope N_scope.
 
 (* ---------------------------------------------------------------- handler and match_info = the rule *)
 
-(* FULL: for EVERY operation list that builds (any nesting of sub-apps, any registration order),
-   every path, method and Host: the index walk chooses the handler, match_info and allowed-method
-   list of the documented rule. *)
-Theorem C14_dispatch_follows_rule : forall ops rt host p m,
-  build_app ops = BOk rt -> starts_with [SLASH] p = true ->
+(* PARTIAL only in the hypothesis op_clean (add_subapp prefixes without '%' and '{'; missing: prefixes
+   given already percent-encoded, which reach the sub-application's resources undecoded).  Otherwise
+   for EVERY operation list that builds (any nesting of sub-apps and domain sub-apps, any registration
+   order), every path_safe path, method and Host: the index walk chooses the handler, match_info and
+   allowed-method list of the documented rule. *)
+Theorem C14_dispatch_follows_rule_partial : forall ops rt host p m,
+  Forall op_clean ops -> build_app ops = BOk rt ->
+  starts_with [SLASH] p = true -> path_safe_dec p = p ->
   resolve_ix rt host p m = resolve_rule rt host p m.
 Proof. exact built_dispatch_follows_rule. Qed.
-Print Assumptions C14_dispatch_follows_rule.
+Print Assumptions C14_dispatch_follows_rule_partial.
 
-(* its two halves: (1) index = rule for every table whose index is consistent ... *)
+(* its two halves: (1) FULL: index = rule for every table whose index is consistent ... *)
 Theorem C14_index_eq_rule : forall rt host p m,
-  router_ok rt -> starts_with [SLASH] p = true ->
+  router_ok rt -> starts_with [SLASH] p = true -> path_safe_dec p = p ->
   resolve_ix rt host p m = resolve_rule rt host p m.
 Proof. exact index_eq_rule. Qed.
 Print Assumptions C14_index_eq_rule.
 
-(* ... (2) construction, including unindex / add_prefix / index of every resource of a mounted
-   sub-application (recursively), keeps every index consistent: each key lists exactly the resources
-   with that key, in registration order. *)
-Theorem C14_built_tables_consistent : forall ops rt, build_app ops = BOk rt -> router_ok rt.
+(* ... (2) PARTIAL in op_clean as above: construction, including unindex / add_prefix / index of every indexed resource of a mounted
+   sub-application (recursively; matched sub-apps are only prefixed), keeps every index consistent:
+   each key lists exactly the resources with that key, in registration order; and every template
+   literal is matched in the path_safe form of its formatter text. *)
+Theorem C14_built_tables_consistent_partial : forall ops rt,
+  Forall op_clean ops -> build_app ops = BOk rt -> router_ok rt.
 Proof. exact build_app_ok. Qed.
-Print Assumptions C14_built_tables_consistent.
+Print Assumptions C14_built_tables_consistent_partial.
 
-(* key lemma of (1): a resource can only match paths that have its index key among their ancestors *)
-Theorem C14_key_is_ancestor : forall c p, p <> [] -> canon_prefix c p -> In (index_key_of c) (ancestors p).
-Proof. exact key_anc. Qed.
-Print Assumptions C14_key_is_ancestor.
+(* key lemmas of (1): a resource can only match paths that have its index key among their ancestors *)
+Theorem C14_key_is_ancestor_brace : forall c L rest p,
+  p <> [] -> memN ik_brace c = true ->
+  (exists u, L = before_char ik_brace c ++ u) ->
+  p = path_safe_dec L ++ rest ->
+  In (index_key_of c) (ancestors p).
+Proof. exact key_anc_brace. Qed.
+Print Assumptions C14_key_is_ancestor_brace.
+
+Theorem C14_key_is_ancestor_whole : forall c p,
+  p <> [] -> memN ik_brace c = false -> p = path_safe_dec c -> In (index_key_of c) (ancestors p).
+Proof. exact key_anc_whole. Qed.
+Print Assumptions C14_key_is_ancestor_whole.
 
 Example C14_example_table :
   exists rt, build_app ex_ops = BOk rt /\
@@ -52,69 +70,85 @@ Example C14_example_table :
 Proof. exact ex_builds_and_resolves. Qed.
 Print Assumptions C14_example_table.
 
+Example C14_example_hypotheses :
+  Forall op_clean ex_ops /\
+  path_safe_dec [47; 115; 47; 115; 47; 113] = [47; 115; 47; 115; 47; 113].
+Proof. exact (conj ex_ops_ex_clean ex_path_is_path_safe). Qed.
+Print Assumptions C14_example_hypotheses.
+
 (* ---------------------------------------------------------------- 404 / 405 *)
 
-(* The full statement (404 only if no resource matches the path; 405 with the complete set of methods)
-   is REFUTED for tables with prefixed sub-applications: the sub-application's own 404/405 is final. *)
-Theorem C14_405_complete_refuted :
-  exists rt A h mi, build_app capture_ops = BOk rt /\
-    resolve_ix rt None s_sx s_DELETE = NotAllowed A /\
-    resolve_ix rt None s_sx s_GET = Found h mi /\ ~ In s_GET A.
-Proof. exact allow_incomplete_witness. Qed.
-Print Assumptions C14_405_complete_refuted.
+(* Since 2ef822d, through any nesting of sub-applications: a 404 is returned only if no resource
+   matches the path — i.e. it does not depend on the method — and a 405 lists exactly the methods for
+   which the same path is served.  FULL for every consistent well-formed table
+   (C14_404_405_sweep_tables below); for operation lists PARTIAL in op_clean only. *)
+Theorem C14_404_405_sweep_partial : forall ops rt host p,
+  Forall op_clean ops -> build_app ops = BOk rt ->
+  starts_with [SLASH] p = true -> path_safe_dec p = p ->
+  (forall m, resolve_ix rt host p m = NotFound -> forall m', resolve_ix rt host p m' = NotFound) /\
+  (forall m A, resolve_ix rt host p m = NotAllowed A ->
+     forall m', (exists h mi, resolve_ix rt host p m' = Found h mi) <-> In m' A).
+Proof. exact built_sweep. Qed.
+Print Assumptions C14_404_405_sweep_partial.
 
-Theorem C14_404_only_if_unmatched_refuted :
-  exists rt h mi, build_app capture404_ops = BOk rt /\
-    resolve_ix rt None s_sy s_POST = NotFound /\ resolve_ix rt None s_sy s_GET = Found h mi.
-Proof. exact notfound_although_matched_witness. Qed.
-Print Assumptions C14_404_only_if_unmatched_refuted.
+(* FULL: every consistent, well-formed table (every leaf has a route, static resources list no wildcard) *)
+Theorem C14_404_405_sweep_tables : forall rt host p,
+  router_ok rt -> wf_router rt -> starts_with [SLASH] p = true -> path_safe_dec p = p ->
+  sweep_ok (fun m => resolve_ix rt host p m).
+Proof. exact ix_sweep. Qed.
+Print Assumptions C14_404_405_sweep_tables.
 
-(* PARTIAL (extra hypothesis: `flat`, no sub-application in the table; missing: the same statement
-   through sub-application boundaries, which the code violates): 404 exactly when no resource
-   matches the path. *)
-Theorem C14_404_iff_unmatched_partial : forall rt host p m,
-  router_ok rt -> flat rt -> starts_with [SLASH] p = true ->
-  (resolve_ix rt host p m = NotFound <-> forall r, In r (r_res rt) -> path_matches r p = false).
-Proof. exact ix_404. Qed.
-Print Assumptions C14_404_iff_unmatched_partial.
+Theorem C14_built_tables_well_formed : forall ops rt, build_app ops = BOk rt -> wf_router rt.
+Proof. exact build_app_wf. Qed.
+Print Assumptions C14_built_tables_well_formed.
 
-(* PARTIAL (same hypothesis): 405 only if some resource matches the path and none the method; the
-   list is exactly the union of the methods of the path-matching resources, and exactly the set of
-   methods for which the same path is served. *)
-Theorem C14_405_exact_partial : forall rt host p m A,
-  router_ok rt -> flat rt -> static_no_any rt -> starts_with [SLASH] p = true ->
-  resolve_ix rt host p m = NotAllowed A ->
-  (exists r, In r (r_res rt) /\ path_matches r p = true) /\
-  (forall r, In r (r_res rt) -> path_matches r p = true -> serves r m = false) /\
-  (forall x, In x A <-> exists r, In r (r_res rt) /\ path_matches r p = true /\ In x (methods r)) /\
-  (forall m', (exists h mi, resolve_ix rt host p m' = Found h mi) <-> In m' A).
-Proof. exact ix_405. Qed.
-Print Assumptions C14_405_exact_partial.
+(* the former refutation witnesses (parent route + sub-application on the same prefix) *)
+Example C14_example_allow_complete :
+  exists rt, build_app capture_ops = BOk rt /\
+    resolve_ix rt None s_sx s_DELETE = NotAllowed [s_GET; s_POST] /\
+    resolve_ix rt None s_sx s_GET = Found 1 [] /\ resolve_ix rt None s_sx s_POST = Found 2 [].
+Proof. exact allow_complete_example. Qed.
+Print Assumptions C14_example_allow_complete.
 
-(* the hypotheses are met by every table built from add_route / add_static only *)
-Theorem C14_leaf_tables_are_flat : forall ops rt,
-  Forall leaf_op ops -> build_app ops = BOk rt -> flat rt /\ static_no_any rt.
-Proof. exact leaf_ops_flat. Qed.
-Print Assumptions C14_leaf_tables_are_flat.
+Example C14_example_static_before_subapp :
+  exists rt, build_app capture404_ops = BOk rt /\
+    resolve_ix rt None s_sy s_POST = NotAllowed [s_GET; s_HEAD] /\
+    resolve_ix rt None s_sy s_GET = Found 1 [(FILENAME, [121])].
+Proof. exact static_before_subapp_example. Qed.
+Print Assumptions C14_example_static_before_subapp.
 
-Example C14_example_flat : Forall leaf_op [ORoute s_GET [47; 97; 47; 98] 1; OStatic s_s 2].
-Proof. exact ex_flat_ops. Qed.
-Print Assumptions C14_example_flat.
+(* an application that has an add_domain sub-application can be mounted under a prefix (94230c1) *)
+Example C14_example_nested_domain :
+  exists rt, build_app nested_domain_ops = BOk rt /\
+    resolve_ix rt (Some s_host) s_pz s_GET = Found 1 [] /\ resolve_ix rt None s_pz s_GET = NotFound.
+Proof. exact nested_domain_example. Qed.
+Print Assumptions C14_example_nested_domain.
 
 (* ---------------------------------------------------------------- url_for and resolution *)
 
-(* The full statement (inverse for every value free of '/', '{', '}') is REFUTED twice. *)
+(* FULL (since 70456c5): every literal part of every template is matched in the path_safe form of the
+   text the formatter (canonical, url_for) carries, and the index key is taken in that form too
+   (C14_built_tables_consistent_partial). *)
+Theorem C14_pattern_literals_decoded : forall path its,
+  parse_template path = Some its -> Forall lit_decoded its.
+Proof. exact parse_literals_decoded. Qed.
+Print Assumptions C14_pattern_literals_decoded.
+
+Example C14_example_requoted_roundtrip :
+  exists pat, parse_template t_ab_x = Some pat /\ format_items pat [([120], [49])] = Some u_ab_1 /\
+    path_safe_dec u_ab_1 = ps_ab_1 /\
+    option_map unquote_dict (match_items pat ps_ab_1) = Some [([120], [49])] /\
+    index_key_of (formatter_of pat) = [47; 97; 32; 98].
+Proof. exact requoted_roundtrip_example. Qed.
+Print Assumptions C14_example_requoted_roundtrip.
+
+(* The full inverse statement (for every value free of '/', '{', '}') stays REFUTED for a hole that is
+   followed inside its segment by more text (open finding C14-ambiguous-holes). *)
 Theorem C14_url_for_inverse_refuted_ambiguous :
   exists pat u d, parse_template t_a_b = Some pat /\ format_items pat vals_ab = Some u /\
     memN PCT u = false /\ match_items pat u = Some d /\ unquote_dict d <> vals_ab.
 Proof. exact url_for_ambiguous_witness. Qed.
 Print Assumptions C14_url_for_inverse_refuted_ambiguous.
-
-Theorem C14_url_for_inverse_refuted_requoted :
-  exists pat, parse_template t_ab_x = Some pat /\ format_items pat [([120], [49])] = Some u_ab_1 /\
-    match_items pat ps_ab_1 = None.
-Proof. exact url_for_requoted_witness. Qed.
-Print Assumptions C14_url_for_inverse_refuted_requoted.
 
 (* PARTIAL, regex level (hypothesis `good_for`: every value lies in its hole's class, is long enough,
    and every hole is closed by a character outside its class — '/' for the default class — or by the
@@ -126,8 +160,9 @@ Proof. exact match_fill. Qed.
 Print Assumptions C14_match_fill_partial.
 
 (* PARTIAL, with the quoting layer (extra hypotheses: values over unreserved characters, literal
-   parts without '%'; then the URL contains no '%', so yarl's path_safe is the identity on it).
-   Missing: values / literals that need percent-encoding (needs a model of yarl's decoder). *)
+   parts without '%'; then the URL contains no '%', so path_safe is the identity on it).
+   Missing: values / literals that need percent-encoding (path_safe_dec does not distribute over an
+   arbitrary concatenation of quoted pieces, e.g. a literal ending in '%'). *)
 Theorem C14_url_for_inverse_partial : forall o f pat rt vals,
   good_for pat vals -> plain_values pat vals -> lits_no_pct pat ->
   exists u, url_for (RDyn o f pat rt) vals = Some u /\ memN PCT u = false /\
@@ -151,7 +186,7 @@ Proof. exact default_hole_stays_in_segment. Qed.
 Print Assumptions C14_default_hole_stays_in_segment.
 
 Example C14_example_good_for :
-  let pat := [Lit [47; 97; 47]; Hole [120] CGood 1%nat; Lit [47; 98]; Hole [121] CDigit 1%nat] in
+  let pat := [Lit [47; 97; 47] [47; 97; 47]; Hole [120] CGood 1%nat; Lit [47; 98] [47; 98]; Hole [121] CDigit 1%nat] in
   let vals := [([120], [113; 45; 113]); ([121], [52; 50])] in
   good_for pat vals /\ plain_values pat vals /\ lits_no_pct pat.
 Proof. exact ex_good_for. Qed.
